@@ -349,6 +349,12 @@ def valid_capture(rng, big=False):
             # still form the word: regenerate until the occurrences are exactly the frame starts
             while naive_occ(b"".join(frames), SYNC) != [j * L for j in range(k)]:
                 frames = [frame(rng, L) for _ in range(k)]
+            if k >= 2 and L >= 12 and rng.random() < 0.4:
+                # the property does not forbid the sync pattern as DATA: plant it inside the second or a later
+                # frame (the first two occurrences, which fix the frame length, are still the frame starts)
+                j = rng.randrange(1, k)
+                pos = rng.randrange(4, L - 4 + 1 - 4) if L - 8 > 4 else 4
+                fr = bytearray(frames[j]); fr[pos:pos + 4] = SYNC; frames[j] = bytes(fr)
         else:
             frames = [frame(rng, L, sync_free=rng.random() < 0.5) for _ in range(k)]
         recs.append(rec_bytes(samdec_packet(rng, frames), sec=rng.boundary(32), usec=rng.randrange(0, 10**6)))
@@ -496,7 +502,11 @@ def reference_frames(f):
             if not occ or occ[0] != 10:
                 return None
             L = occ[1] - occ[0] if len(occ) > 1 else len(body)
-            if len(body) % L or occ != [10 + L * j for j in range(len(body) // L)]:
+            starts = [10 + L * j for j in range(len(body) // L)] if L > 0 and len(body) % L == 0 else None
+            # every frame start is an occurrence; further occurrences (the pattern as DATA) may only lie inside the
+            # second or a later frame — the first two occurrences fix the frame length
+            if starts is None or any(x not in occ for x in starts) or occ[:2] != starts[:2] or \
+                    any(x < 10 + L for x in occ if x not in starts):
                 return None
         if len(body) == 0 or len(body) % L:
             return None
